@@ -65,7 +65,10 @@ type shortHeaderPacket struct {
 	KeyPhase        protocol.KeyPhaseBit
 }
 
-func (p *shortHeaderPacket) IsAckEliciting() bool { return ackhandler.HasAckElicitingFrames(p.Frames) }
+// STREAM frames are kept in a separate slice; they are ack-eliciting as well.
+func (p *shortHeaderPacket) IsAckEliciting() bool {
+	return len(p.StreamFrames) > 0 || ackhandler.HasAckElicitingFrames(p.Frames)
+}
 
 type coalescedPacket struct {
 	buffer         *packetBuffer
@@ -92,7 +95,9 @@ func (p *longHeaderPacket) EncryptionLevel() protocol.EncryptionLevel {
 	}
 }
 
-func (p *longHeaderPacket) IsAckEliciting() bool { return ackhandler.HasAckElicitingFrames(p.frames) }
+func (p *longHeaderPacket) IsAckEliciting() bool {
+	return len(p.streamFrames) > 0 || ackhandler.HasAckElicitingFrames(p.frames)
+}
 
 type packetNumberManager interface {
 	PeekPacketNumber(protocol.EncryptionLevel) (protocol.PacketNumber, protocol.PacketNumberLen)
